@@ -87,8 +87,9 @@ def run(ctx):
         "without effect; requests touch one file; well-formedness is an invariant; per-file objects are disjoint; every handler holds the inode's lock across its body and the body's "
         "waiting commit (table regenerated from simple/ops.go), so — model M14, any interleaving — a reply reveals only what a crash cannot undo. Correspondence on all procedures with exact status codes",
         "request sequences over inode numbers 0..40 and huge, handles shorter than 8 bytes, offsets/sizes/counts at 0,1,2,4094..4097,8192,2^32,2^63,2^64-k, count≠len(data), "
-        "appends at the current size, lookups, commits, unsupported procedures; every reply compared exactly",
+        "appends at the current size, lookups, commits, unsupported procedures, and restarts of the server on the same disk both ways it comes up (simple.MakeNfs as in cmd/simple-nfsd, "
+        "simple.Recover) — the model's state must carry over; every reply compared exactly",
         ["64-bit offsets are read as natural numbers (exact because of the explicit SumOverflows test, which the correspondence exercises at 2^64-k)"],
         pending=[],
-        partial=["concurrent requests: rounds of 2-4 simultaneous WRITE/SETATTR on one inode must be explained by some order applied by the model (sampled schedules, not a theorem)", "crash atomicity/durability: theorems of C01 on the WAL model + recorded-trace validation + prefix-state oracle on sampled crash images of WRITE/SETATTR workloads (recovered by simple.Recover); "
+        partial=["concurrent requests: rounds of 2-4 simultaneous WRITE/SETATTR on one inode must be explained by some order applied by the model (sampled schedules, not a theorem)", "crash atomicity/durability: theorems of C01 on the WAL model + recorded-trace validation + prefix-state oracle on sampled crash images of WRITE/SETATTR workloads (recovered alternately by simple.Recover and by simple.MakeNfs, the start path of cmd/simple-nfsd); "
                  "crash right after a revealing reply: SETATTR 1,2,3,... beside two GETATTR clients on a disk slow on the log header, crash (un-barriered writes lost) at the position of each first reply reporting a size, the recovered size must not be smaller"])
